@@ -131,6 +131,9 @@ def run_conc_property(run):
         "failures_owned_by_other_properties": foreign,
         "samples": scens[:8] + race_scens[:2],
     })
+    if pid == "C13":
+        import kqcheck
+        kqcheck.close_release_for_C13(run)
     run.assumptions += ["Go scheduler fairness and mutex/channel semantics", "the kernel releases all marks when the inotify descriptor is closed"]
 
 
